@@ -25,6 +25,16 @@ pub mod server;
 pub mod text_document;
 mod uri_file_path_ext;
 
+/// Verification hook (only under `cfg(kani)`, which `cargo kani` sets): re-exports of the
+/// crate-private position conversion kernels for out-of-tree proof harnesses.
+#[cfg(kani)]
+pub mod verif_hooks {
+    pub use crate::format::char_index_to_position;
+    pub use crate::hover::LineChar;
+    pub use crate::hover::verif_get_index_of_line_char as get_index_of_line_char;
+    pub use crate::semantic_tokens::delta_line_delta_start;
+}
+
 pub async fn start_language_server<TCompilationProfile: CompilationProfile>(
     config: CompilerConfig,
     current_working_directory: CurrentWorkingDirectory,
